@@ -115,7 +115,10 @@ def readurl(out):
     main = body[3]
     if not isinstance(main, ast.If):
         raise Refused("_readUrl: 4th statement is not the acceptance `if`")
-    expect(main.test, "r and len(r) == 2 and (r[1] is not None)", "acceptance test of the fetcher result")
+    # a 2-sequence (encoding label: None or str, content: text or bytes); every other result is "nothing read"
+    expect(main.test, "isinstance(r, (tuple, list)) and len(r) == 2 and isinstance(r[1], (text_type, bytes, bytearray, "
+                      "memoryview)) and (r[0] is None or isinstance(r[0], string_type))",
+           "acceptance test of the fetcher result")
     if len(main.orelse) != 1:
         raise Refused("_readUrl: else branch")
     expect(main.orelse[0], "return (None, None, None)", "_readUrl else branch")
